@@ -26,6 +26,7 @@ pub struct ChunkDeserializer {
     current_payload_data: BytesMut,
     buffer: BytesMut,
     previous_headers: HashMap<u32, ChunkHeader>,
+    partial_payloads: HashMap<u32, BytesMut>,
 }
 
 enum ParsedValue<T> {
@@ -63,6 +64,7 @@ impl ChunkDeserializer {
             current_stage: ParseStage::Csid,
             buffer: BytesMut::with_capacity(4096),
             previous_headers: HashMap::new(),
+            partial_payloads: HashMap::new(),
             current_payload: MessagePayload::new(),
             current_payload_data: BytesMut::new(),
         }
@@ -220,6 +222,13 @@ impl ChunkDeserializer {
                 None => return Err(ChunkDeserializationError::NoPreviousChunkOnStream { csid }),
                 Some(header) => header,
             },
+        };
+
+        // Chunks of messages on different chunk streams may be interleaved, so continue with
+        // whatever has been received so far of the message in progress on this chunk stream.
+        self.current_payload_data = match self.partial_payloads.remove(&csid) {
+            Some(data) => data,
+            None => BytesMut::new(),
         };
 
         let _ = self.buffer.split_to(next_index as usize);
@@ -400,6 +409,11 @@ impl ChunkDeserializer {
 
             let payload = mem::replace(&mut self.current_payload, MessagePayload::new());
             *message_to_return = Some(payload)
+        } else {
+            // Park the partial message until the next chunk on this chunk stream arrives
+            let data = mem::replace(&mut self.current_payload_data, BytesMut::new());
+            self.partial_payloads
+                .insert(self.current_header.chunk_stream_id, data);
         }
 
         // This completes the current chunk, so cycle the header into the map and start a new one
